@@ -263,6 +263,9 @@ func checkBytes(t interface {
 	if p := ev.Guard(func() { serveErr = s.Serve(rec) }); p != "" {
 		fail("Serve panicked: %s", p)
 	}
+	if len(rec.leaks) > 0 {
+		fail("a handler that kept the reader it was given could read past the end of its element: %s", strings.Join(rec.leaks, "; "))
+	}
 	if end == "replyeither" && len(rec.inv) > len(want) {
 		rec.inv = rec.inv[:len(want)]
 	}
